@@ -38,6 +38,18 @@ PROPS = {
         "real_vs_stub": REAL,
         "assumptions": ["reference model decides which operations must be rejected (classes listed in the property statement only)"],
     },
+    "C10": {
+        "level": "exploration", "quick": 1500, "thorough": 80000, "batch": 25,
+        "rule": ("seeded link / relink (changed weight or props) / soft and hard unlink / graph vacuum (explicit and the hourly background "
+                 "ticker, retention from config) / delete-cascade / snapshot / compaction / restart histories over <=6 nodes x 3 relations x "
+                 "<=2 namespaces with clock advances in {0, 1ns, 2ns, 1us, 1s, 3s, 1m, 61m} so equal timestamps and every boundary occur; after "
+                 "EVERY op and after every restart: VGetEdges / VGetIncomingEdges at T=0 and at every recorded timestamp -1/0/+1 ns, VGetLinks, "
+                 "VGetIncoming, VGetRelations, VGetIncomingRelations must equal the version-list reference model (incoming views derived from "
+                 "the forward lists). Non-trivial: >=2 mutations; distinct = op-kind sequence."),
+        "real_vs_stub": REAL,
+        "assumptions": ["edge semantics from the property statement: created <= T < deleted, T=0 means now; identical re-link is a no-op; "
+                        "changed weight/props supersedes; hard unlink erases all versions of the triple; vacuum removes deleted <= cutoff"],
+    },
 }
 
 
@@ -47,6 +59,12 @@ NOT_APPLICABLE["C20"] = ("pure functions of their input (text analysis, chunking
                          "no schedule, fault or interleaving for a simulator to decide; property-based testing territory, see DESIGN.md section 7")
 
 MANIFEST_TEXT = {
+    "C10": {
+        "text": "Seeded exploration of link/unlink/vacuum histories under a simulated clock (equal timestamps and +-1ns boundaries are generated on purpose): every edge view, forward and reverse, current and as-of every recorded instant, must equal a version-list reference model after each operation and after snapshot, compaction and restart.",
+        "design_ref": "DESIGN.md section 6 C10",
+        "note": "Trusts the reference edge model and that the simulated clock is what the engine stamps edges with (synctest). Small universes (<=6 nodes x 3 relations) sampled randomly, not enumerated.",
+        "technique": "deterministic simulation: simulated clock + seeded histories + restart injection, refinement check against a version-list edge model",
+    },
     "C05": {
         "text": "Seeded exploration of histories with generated must-reject operations: each must return an error, leave the full read-out unchanged and the index usable, and the state after every later restart (log replay, snapshot, compaction) must equal the reference model that ignored the rejected operations.",
         "design_ref": "DESIGN.md section 6 C05",
